@@ -3,6 +3,7 @@ CONSTANTS Kinds = {"plain"}
           MixedServerSet = {}
           MixedCoreServers = {}
           MixedMethKeys = {"G", "GP"}
+          PlainMethKeys = {"G", "P", "GP"}
           MaxLen = 3
           MaxT = 3
           ServerSet = {"none", "rel", "relslash", "relroot", "abs", "absvar", "two", "psfirst", "pslast", "relpfx", "abspfx"}
@@ -11,5 +12,6 @@ CONSTANTS Kinds = {"plain"}
           CoreServers = {"none", "rel", "relslash", "relroot", "abs", "absvar", "two", "psfirst", "pslast", "relpfx", "abspfx"}
           Slice = 0
           Seed = 1
+          DesignAll = TRUE
 INVARIANTS DesignOK Emit
 CHECK_DEADLOCK FALSE
